@@ -10,7 +10,9 @@ from .core import digest
 
 PROBES = ['ts timestamp, m map, c character, z zone', 'select a/* c */from b', 'a+b', 'select 1/* one */+2 -- t\n|| 3',
           "select 'a' || 'b' /* x */ , 100 /* base */+ 1 from t", 'create table t (ts timestamp, c character(3), m map)',
-          'select a # c\nfrom t; -- x\nselect 2']
+          'select a # c\nfrom t; -- x\nselect 2',
+          'select ' + '(' * 100 + 'case when a then 1 end' + ')' * 100 + ' from t',
+          'select ' + '(' * 60 + '[x]' + ')' * 60, 'select newword%d, another_new_word from brand_new_table']
 
 FAMILIES = {
     'pool_strip_cw': dict(strip_comments=True, strip_whitespace=True),
@@ -30,6 +32,10 @@ def entries(texts):
         out.append(('split', t, {}))
         for o in REFOPTS:
             out.append(('format', t, o))
+    # byte input without an encoding: UTF-8 first, Latin-1 as documented fallback - per call, not per process
+    for t in ['select "é", \'naïve ☃\' from tbl', 'select caf\u00e9']:
+        out.append(('split_bytes', t, {}))
+        out.append(('format_bytes', t, {}))
     return out
 
 
@@ -43,6 +49,10 @@ def evaluate(ents):
                 r = shape(t)
             elif kind == 'split':
                 r = sqlparse.split(t)
+            elif kind == 'split_bytes':
+                r = sqlparse.split(t.encode('utf-8'))
+            elif kind == 'format_bytes':
+                r = sqlparse.format(t.encode('utf-8'), keyword_case='upper')
             else:
                 r = sqlparse.format(t, **o)
         except Exception as e:  # noqa
